@@ -165,6 +165,24 @@ def scale_assume_case(draw, tier):
     return {"model": spec, "dl": dl, "il": il, "dc": dc, "extra": []}
 
 
+def big_dicts(tier):
+    """ENUMERATED: dictionaries of 250-600 entries. Model A = All(B = Any(x...), C = AtMost(3, y...)); the assumption names B, C or
+    A with a constant (in each value form), the interpretation gives EVERY leaf (all zero / all one / a few ones)"""
+    for n in (127, 128, 255, 256, 300, 600):
+        xs = [{"k": "leaf", "id": "x%03d" % i, "b": [0, 1]} for i in range(n // 2)]
+        ys = [{"k": "leaf", "id": "y%03d" % i, "b": [0, 1]} for i in range(n - n // 2)]
+        spec = {"k": "All", "id": "A", "c": [{"k": "Any", "id": "B", "c": xs}, {"k": "AtMost", "v": 3, "id": "C", "c": ys}]}
+        ids = sorted(l["id"] for l in xs + ys)
+        comp_sorted = ["A", "B", "C"]
+        for which in (1, 2, 0):                 # index into the sorted compound ids: B, C, A
+            for val in (0, 1):
+                for form in (0, 1, 2):
+                    for pattern in ("zeros", "ones", "few"):
+                        ones = set() if pattern == "zeros" else set(ids) if pattern == "ones" else {ids[0], ids[-1], ids[len(ids) // 2]}
+                        yield {"model": spec, "dl": [[0, 0, 0] for _ in ids], "il": [[1, 1 if i in ones else 0, 1] for i in ids],
+                               "dc": [[which, val, form]], "extra": []}
+
+
 def check(case, ev):
     import puan
     spec = case["model"]
@@ -302,5 +320,5 @@ def empty(slice_i, n):
 
 
 def parts(tier):
-    return [Part("scale", strategy=lambda t: scale_assume_case(t), check=check, quick=(2, 40), thorough=(4, 500)), Part("empty0", enumerate_cases=(lambda t: empty(0, 1)), check=check, time_quick=120.0)] + [Part("symmetric_shapes%d" % i, enumerate_cases=(lambda t, i=i: symmetric_shapes(i, 2)), check=check, time_quick=120.0) for i in range(2)] + [Part("compound_siblings", strategy=lambda t: siblings_case(t), check=check, quick=(2, 250), thorough=(4, 3000))] + [Part("wide_nodes", strategy=lambda t: wide_assume_case(t), check=check, quick=(2, 150), thorough=(4, 2000))] + [Part("assume", strategy=lambda t: case_strategy(t), check=check, quick=(8, 300), thorough=(16, 2500)),
+    return [Part("big_dicts", enumerate_cases=big_dicts, check=check, time_quick=200.0), Part("scale", strategy=lambda t: scale_assume_case(t), check=check, quick=(2, 40), thorough=(4, 500)), Part("empty0", enumerate_cases=(lambda t: empty(0, 1)), check=check, time_quick=120.0)] + [Part("symmetric_shapes%d" % i, enumerate_cases=(lambda t, i=i: symmetric_shapes(i, 2)), check=check, time_quick=120.0) for i in range(2)] + [Part("compound_siblings", strategy=lambda t: siblings_case(t), check=check, quick=(2, 250), thorough=(4, 3000))] + [Part("wide_nodes", strategy=lambda t: wide_assume_case(t), check=check, quick=(2, 150), thorough=(4, 2000))] + [Part("assume", strategy=lambda t: case_strategy(t), check=check, quick=(8, 300), thorough=(16, 2500)),
             Part("symmetric", strategy=lambda t: symmetric_case(t), check=check, quick=(3, 300), thorough=(6, 2500))]
